@@ -66,6 +66,8 @@ type HarnessStats struct {
 	Witnesses    []*Replay // models of completed paths for native validation
 	Cross        map[string]string
 	IntQueries   int
+	CrossChecked int
+	CrossDisagree int
 	RaceEvents   int
 	BVQueries    int
 	PanicPaths   int
@@ -106,6 +108,7 @@ type RunConfig struct {
 	Deadline   time.Time
 	Tier       int
 	PathWorkers int
+	Cross      []string
 }
 
 func (ex *Exec) resetPath(forced []int64) {
@@ -226,7 +229,14 @@ func RunHarness(prog *ssa.Program, fn *ssa.Function, initPkgs []*ssa.Package, cf
 			} else {
 				defer isolver.Close()
 			}
-			ex := &Exec{prog: prog, tf: tf, solver: solver, isolver: isolver, maxSteps: cfg.MaxSteps, maxDepth: cfg.MaxDepth, harness: fn.Name(), stats: st, tier: cfg.Tier, deadline: cfg.Deadline}
+			var xs []*Solver
+			for _, n := range cfg.Cross {
+				if s2, err := NewSolver(n, tf, cfg.TimeoutMs); err == nil {
+					xs = append(xs, s2)
+					defer s2.Close()
+				}
+			}
+			ex := &Exec{prog: prog, tf: tf, solver: solver, isolver: isolver, xsolvers: xs, maxSteps: cfg.MaxSteps, maxDepth: cfg.MaxDepth, harness: fn.Name(), stats: st, tier: cfg.Tier, deadline: cfg.Deadline}
 			ex.initIntrinsics()
 			ex.initPkgs = initPkgs
 			defer func() {
@@ -339,6 +349,8 @@ func mergeStats(name string, parts []*HarnessStats) *HarnessStats {
 			st.MaxPathSteps = p.MaxPathSteps
 		}
 		st.IntQueries += p.IntQueries
+		st.CrossChecked += p.CrossChecked
+		st.CrossDisagree += p.CrossDisagree
 		st.BVQueries += p.BVQueries
 		if p.RaceEvents > st.RaceEvents {
 			st.RaceEvents = p.RaceEvents
